@@ -268,7 +268,7 @@ BUILDERS = {
     'private-60': lambda a, b: (60, bytes(range(a % 256))),
     'private-63': lambda a, b: (63, b''),
 }
-HDRS = ['new', 'new2', 'new5', 'old0', 'old1', 'old2', 'partial', 'indeterminate']
+HDRS = ['new', 'new2', 'new5', 'old0', 'old1', 'old2', 'partial', 'partial5', 'indeterminate']
 
 
 def frame(tag, body, hdr):
@@ -291,6 +291,12 @@ def frame(tag, body, hdr):
                 return wire.build_packet(tag, body)
             first = 1 << min(9, (len(body) - 1).bit_length() - 1)
             return wire.build_packet(tag, body, 'new', chunks=[first, len(body) - first])
+        if hdr == 'partial5':
+            # two partial chunks, then the last part announced with a five-octet length
+            if len(body) < 4:
+                return wire.build_packet(tag, body, 'new', 5)
+            first = 1 << min(8, (len(body) - 2).bit_length() - 2)
+            return wire.build_packet(tag, body, 'new', 5, chunks=[first, first, len(body) - 2 * first])
         if tag > 15:
             return wire.build_packet(tag, body)
         return wire.build_packet(tag, body, 'old', 3)
@@ -352,6 +358,19 @@ def eval_foreign(c, rec):
         rec.finding('foreign-roundtrip', 'field-values-change/%s/%s' % (name, '+'.join(sorted(diff))[:40]), case, 'fields that differ after re-serialisation: %r' % diff)
     if out2 != out1:
         rec.finding('foreign-roundtrip', 'not-a-fixed-point/%s' % name, case, '%s.. vs %s..' % (out1[:20].hex(), out2[:20].hex()))
+    # in-place change of state: a protected secret key that has been unlocked still serialises to the same (protected) packet
+    if name in ('seckey', 'seckey-elgamal') and body[len(rkeys.parse_public_body(body)[0].body)] != 0 and hasattr(p1, 'unprotect'):
+        try:
+            p1.unprotect('pw')
+            out3 = bytes(p1.__bytearray__())
+            if out3 != out1:
+                rec.finding('foreign-roundtrip', 'unlocked-secret-key-serialises-differently/usage%d' % body[len(rkeys.parse_public_body(body)[0].body)], case,
+                            '%d octets locked, %d octets after unprotect()' % (len(out1), len(out3)))
+            rec.note('seckey-unprotected-then-serialised')
+        except NotImplementedError:
+            rec.note('seckey-unprotect-unsupported')
+        except Exception as e:   # noqa
+            rec.finding('foreign-roundtrip', 'unprotect-exception/%s' % harness.exc_key(e), case, repr(e))
     # the body must survive normalisation for packets PGPy treats as opaque or re-emits verbatim
     if q[0].body != body and type(p1).__name__ in ('Opaque', 'SKEData', 'IntegrityProtectedSKEDataV1', 'Marker', 'MDC'):
         rec.finding('foreign-roundtrip', 'opaque-body-changes/%s' % name, case, '')
